@@ -256,3 +256,165 @@ def _mx(old, new, UNSET):
     if old is None or new is None:
         return None
     return max(old, new)
+
+
+# ------------------------------------------------------------------------------------------ STR-LOOP
+import re as _re
+
+
+def _fmt_len(fn, fa, call, fmt, args):
+    """(min, max) number of characters snprintf/sprintf produces for fmt with the given argument expressions
+    (max None = unknown)."""
+    lo = hi = 0
+    ai = 0
+    i = 0
+    while i < len(fmt):
+        ch = fmt[i]
+        if ch != '%':
+            lo += 1
+            hi = None if hi is None else hi + 1
+            i += 1
+            continue
+        m = _re.match(r'%([-+ 0#]*)(\d*)(?:\.(\d+))?(hh|h|ll|l|z)?([diuxXcs%])', fmt[i:])
+        if not m:
+            return (lo, None)
+        i += len(m.group(0))
+        conv = m.group(5)
+        if conv == '%':
+            lo += 1
+            hi = None if hi is None else hi + 1
+            continue
+        width = int(m.group(2)) if m.group(2) else 0
+        a = args[ai] if ai < len(args) else None
+        ai += 1
+        if conv == 'c':
+            l1 = h1 = 1
+        elif conv == 's':
+            l1, h1 = 0, None
+        else:
+            iv = fa.eval_at(a, call) if a is not None else (None, None)
+            if iv[0] is None or iv[1] is None:
+                l1, h1 = 1, None
+            else:
+                def digits(v):
+                    if conv in 'xX':
+                        return max(1, len('%x' % (v & 0xffffffff if v < 0 else v)))
+                    return len('%d' % v)
+                cands = [digits(iv[0]), digits(iv[1])]
+                if iv[0] <= 0 <= iv[1]:
+                    cands.append(1)
+                l1, h1 = min(cands), max(cands)
+                if conv in 'xX' and iv[0] < 0:
+                    h1 = 8
+        l1 = max(l1, width)
+        h1 = None if h1 is None else max(h1, width)
+        lo += l1
+        hi = None if (hi is None or h1 is None) else hi + h1
+    return (lo, hi)
+
+
+def str_loops(prog, scope, an, floor=10):
+    """STR-LOOP: a loop that appends one formatted piece per iteration to a local buffer (`bytes[0] = 0; for (n = 0; n <
+    count; n++) { snprintf(temp, ..., "%02x ", ...); strcat(bytes, temp); }`) stays inside the buffer: initial length +
+    iterations x piece length < capacity.  Lengths of the pieces come from the format string and the value ranges of
+    its arguments, the iteration count from the interval of the loop bound (e.g. the return range of the decoder).
+    Proven when the maximum fits; a violation when already the minimum does not fit; otherwise not decided."""
+    obs = []
+    for fn in sorted(prog.functions(scope), key=lambda f: (f.file, f.line)):
+        if not fn.blocks:
+            continue
+        loops = natural_loops(fn)
+        if not loops:
+            continue
+        fa = None
+        k = 0
+        for h, body in sorted(loops.items()):
+            cats = [c for c in fn.calls() if callee(c) == 'strcat' and (fn.where.get(c['i']) or (None,))[0] in body]
+            # innermost loop only
+            if not cats or any(h2 != h and body2 < body and (fn.where.get(cats[0]['i']) or (None,))[0] in body2 for h2, body2 in loops.items()):
+                continue
+            if len(cats) != 1:
+                continue
+            c = cats[0]
+            dst, src = [strip(a, casts=True) for a in call_args(c)[:2]]
+            cap = _arr_size(fn.type(dst) or '') if dst['k'] == 'DeclRefExpr' else None
+            if cap is None or src['k'] != 'DeclRefExpr':
+                continue
+            # the piece: snprintf(src, size, "fmt", ...) in the loop body
+            sn = [x for x in fn.calls() if callee(x) in ('snprintf', 'sprintf') and (fn.where.get(x['i']) or (None,))[0] in body and
+                  strip(call_args(x)[0], casts=True).get('d') == src.get('d')]
+            if len(sn) != 1:
+                continue
+            sa = call_args(sn[0])
+            fi_ = 2 if callee(sn[0]) == 'snprintf' else 1
+            fmt = strip(sa[fi_], casts=True) if len(sa) > fi_ else None
+            if fmt is None or fmt['k'] != 'StringLiteral':
+                continue
+            # canonical counter
+            hb = fn.blocks[h]
+            cn = fn.nodes.get(hb.get('cond')) if 'cond' in hb else None
+            if cn is None:
+                continue
+            own = strip(cn)
+            if own['k'] != 'BinaryOperator' or own.get('op') not in ('<', '<='):
+                continue
+            cv = strip(kids(own)[0], casts=True)
+            if cv['k'] != 'DeclRefExpr':
+                continue
+            step = None
+            for x in fn.nodes.values():
+                w = fn.where.get(x['i'])
+                if w is None or w[0] not in body:
+                    continue
+                if x['k'] == 'UnaryOperator' and x.get('op') == '++' and strip(kids(x)[0], casts=True).get('d') == cv.get('d'):
+                    step = 1
+                elif x['k'] == 'CompoundAssignOperator' and x.get('op') == '+=' and strip(kids(x)[0], casts=True).get('d') == cv.get('d'):
+                    step = const(kids(x)[1])
+            if not step or step < 1:
+                continue
+            if fa is None:
+                fa = an._fa_cache(fn)
+            if h not in fa.reached:
+                continue
+            k += 1
+            e_iv = fa.eval_at(kids(own)[1], own)
+            extra = 1 if own['op'] == '<=' else 0
+            pl, ph = _fmt_len(fn, fa, sn[0], fmt.get('s') or '', sa[fi_ + 1:])
+            # initial length: `dst[0] = 0` or strcpy(dst, "literal") in a block that dominates the header
+            from nk.cfg import dominators
+            dom = dominators(fn)
+            L0 = None
+            for x in fn.nodes.values():
+                w = fn.where.get(x['i'])
+                if w is None or w[0] not in dom[h] or w[0] in body:
+                    continue
+                if x['k'] == 'BinaryOperator' and x.get('op') == '=':
+                    l_ = strip(kids(x)[0])
+                    if l_['k'] == 'ArraySubscriptExpr' and strip(kids(l_)[0], casts=True).get('d') == dst.get('d') and \
+                            const(kids(l_)[1]) == 0 and const(kids(x)[1]) == 0:
+                        L0 = 0
+                elif callee(x) == 'strcpy' and strip(call_args(x)[0], casts=True).get('d') == dst.get('d'):
+                    s_ = strip(call_args(x)[1], casts=True)
+                    if s_['k'] == 'StringLiteral':
+                        L0 = len(s_.get('s') or '')
+            construct = 'append-loop:%s#%d' % (dst.get('n'), k)
+            if L0 is None or e_iv[0] is None or e_iv[1] is None:
+                obs.append(Ob('STR-LOOP', fn.file, c['l'], fn.q, construct, OBSERVATION,
+                              'initial length %s, loop bound %s: not decided' % (L0, e_iv)))
+                continue
+            it_lo = max(0, -(-(max(e_iv[0], 0) + extra) // step))
+            it_hi = max(0, -(-(max(e_iv[1], 0) + extra) // step))
+            tmin = L0 + it_lo * pl
+            tmax = None if ph is None else L0 + it_hi * ph
+            if tmax is not None and tmax < cap:
+                obs.append(Ob('STR-LOOP', fn.file, c['l'], fn.q, construct, DISCHARGED, '',
+                              'at most %d iterations x %d characters + %d < %d bytes' % (it_hi, ph, L0, cap), True))
+            elif tmin >= cap:
+                obs.append(Ob('STR-LOOP', fn.file, c['l'], fn.q, construct, VIOLATED,
+                              '`%s` runs at least %d times (loop bound %s) and appends %d characters each time: %d characters plus the '
+                              'terminator are written into the %d-byte `%s`' % (show(c)[:40], it_lo, e_iv, pl, tmin, cap, dst.get('n'))))
+            else:
+                obs.append(Ob('STR-LOOP', fn.file, c['l'], fn.q, construct, OBSERVATION,
+                              'between %d and %s characters into %d bytes (loop bound %s, piece %s..%s): not decided' % (
+                                  tmin, tmax, cap, e_iv, pl, ph)))
+    return RuleResult('STR-LOOP', obs, floor, {})
